@@ -874,6 +874,8 @@ def parse_host(host):
             raise URLParseError(f'invalid IPv6 host: {host!r} ({se!r})')
         except UnicodeEncodeError:
             pass  # TODO: this can't be a real host right?
+        except ValueError as ve:  # embedded null character
+            raise URLParseError(f'invalid IPv6 host: {host!r} ({ve!r})')
         else:
             family = socket.AF_INET6
             return family, host
@@ -881,6 +883,8 @@ def parse_host(host):
         inet_pton(socket.AF_INET, host)
     except (OSError, UnicodeEncodeError):
         family = None  # not an IP
+    except ValueError:
+        family = None  # embedded null character: not an IP either
     else:
         family = socket.AF_INET
     return family, host
